@@ -4,6 +4,7 @@ C06 — track lifecycle: counts, completion, removal, stop-when-done, limits, na
 import IsobarV.Sched.BalanceOps
 import IsobarV.Sched.Fields
 import IsobarV.Props.C02
+import IsobarV.Sched.LenInv
 
 namespace IsobarV.C06
 open IsobarV.Sched
@@ -212,5 +213,22 @@ theorem clear_removes_all (tl : TL) : (applyOp tl .clear).tl.tracks = [] := by s
 theorem muted_emits_nothing (tl : TL) (t : Track) (d : Nat) (a : Bool) (k : EvKind) (h : t.muted = true) :
     (performEvent tl t d a k).calls = [] := by
   simp [performEvent, h]
+
+/-- **… and over whole histories**: starting within a non-zero limit `m`, after ANY history of API
+    calls and ticks that does not change the limit itself (neither directly nor from a callback) —
+    including callbacks that schedule tracks, faults, removals — the number of tracks is ≤ `m`. -/
+theorem len_le_max (W : World) (hW : NoSetMaxW W) (m : Nat) (hm : m ≠ 0) (hist : List Step) (tl : TL)
+    (h0 : LenInv m tl) (hhist : ∀ s ∈ hist, ∀ o, s = .op o → o.isSetMax = false) :
+    (run W tl hist).1.tracks.length ≤ m ∧ (run W tl hist).1.maxTracks = m := by
+  suffices h : LenInv m (run W tl hist).1 from ⟨h.2, h.1⟩
+  induction hist generalizing tl with
+  | nil => exact h0
+  | cons s ss ih =>
+    simp only [run]
+    apply ih
+    · cases s with
+      | op o => exact applyOp_len hm tl o h0 (hhist (.op o) (by simp) o rfl)
+      | tick => exact tickTL_len hm W hW tl h0
+    · exact fun s hs => hhist s (by simp [hs])
 
 end IsobarV.C06
